@@ -112,7 +112,7 @@ PROPS = {
         "assumptions": COMMON_ASSUMPTIONS,
     },
     "C04": {
-        "mc": ["enc_msgs", "dec_data"], "gen": ["roundtrip_data", "avp_lengths"],
+        "mc": ["enc_msgs", "dec_data"], "gen": ["roundtrip_data", "avp_lengths", "rfc_messages"],
         "rule": "the complete product ids x Ns/Nr x priority x length {absent, exact} x offset {absent, 0, 1, |data|-1} x "
                 "|data| {1,2,17} plus seeded random data messages (payload up to 60 000 octets)",
         "assumptions": COMMON_ASSUMPTIONS,
